@@ -162,11 +162,16 @@ func ParseNum(s string) (*big.Rat, bool) {
 	exp := 0
 	if i := strings.IndexAny(t, "eE"); i >= 0 {
 		mant = t[:i]
-		e, err := strconv.Atoi(t[i+1:])
+		et := t[i+1:]
+		e, err := strconv.Atoi(et)
 		if err != nil || e > 100000 || e < -100000 {
+			// zero stays zero whatever the exponent says (0E100001, 0e-99999999999)
+			if zeroMantissa(mant) && exponentSyntax(et) {
+				return new(big.Rat), true
+			}
 			return nil, false
 		}
-		if len(t[i+1:]) == 0 {
+		if len(et) == 0 {
 			return nil, false
 		}
 		exp = e
@@ -255,6 +260,37 @@ func VNumText(s string) Val {
 		panic("jv: bad number text " + strconv.Quote(s))
 	}
 	return Val{K: Num, R: r, T: s}
+}
+
+func zeroMantissa(m string) bool {
+	digits := 0
+	dots := 0
+	for i := 0; i < len(m); i++ {
+		switch {
+		case m[i] == '0':
+			digits++
+		case m[i] == '.':
+			dots++
+		default:
+			return false
+		}
+	}
+	return digits > 0 && dots <= 1 && !strings.HasPrefix(m, ".") && !strings.HasSuffix(m, ".")
+}
+
+func exponentSyntax(e string) bool {
+	if len(e) > 0 && (e[0] == '+' || e[0] == '-') {
+		e = e[1:]
+	}
+	if e == "" {
+		return false
+	}
+	for i := 0; i < len(e); i++ {
+		if e[i] < '0' || e[i] > '9' {
+			return false
+		}
+	}
+	return true
 }
 
 // RatText renders an exact rational as a JSON number if it is a terminating
@@ -528,13 +564,14 @@ func ParseJSON(s string) (Val, error) {
 
 // Info describes non-JSON aspects of a Go value met by FromGo.
 type Info struct {
-	NilSlice  bool   // a nil []any somewhere (serialises as null)
-	NilMap    bool   // a nil map[string]any somewhere
-	Foreign   string // first Go type outside the allowed result kinds
-	BadNumber string // NaN/Inf/unparseable number met
-	BadUTF8   bool   // some string is not valid UTF-8
-	NumKinds  map[string]int
-	path      map[uintptr]bool // containers on the current recursion path (cycle detection)
+	NilSlice   bool   // a nil []any somewhere (serialises as null)
+	NilMap     bool   // a nil map[string]any somewhere
+	Foreign    string // first Go type outside the allowed result kinds
+	BadNumber  string // NaN/Inf/unparseable number met
+	HugeNumber string // a well-formed number text with an exponent beyond +-100000 (not judged)
+	BadUTF8    bool   // some string is not valid UTF-8
+	NumKinds   map[string]int
+	path       map[uintptr]bool // containers on the current recursion path (cycle detection)
 }
 
 // FromGo normalises a Go value of the kinds the library accepts/returns.
@@ -594,7 +631,13 @@ func fromGo(x any, info *Info, depth int) Val {
 		noteKind(info, "json.Number")
 		r, ok := ParseNum(string(x))
 		if !ok {
-			info.BadNumber = "json.Number(" + strconv.Quote(string(x)) + ")"
+			if IsJSONNumber(string(x)) {
+				// a well-formed number whose exponent is beyond what the harness
+				// holds exactly (1E100001): not judged
+				info.HugeNumber = string(x)
+			} else {
+				info.BadNumber = "json.Number(" + strconv.Quote(string(x)) + ")"
+			}
 			return VNull()
 		}
 		return Val{K: Num, R: r, T: string(x)}
